@@ -16,7 +16,7 @@
 """Maintain the current config of the tracepoints."""
 
 import abc
-import logging
+from deep import logging
 import threading
 import uuid
 from typing import Dict, List, TYPE_CHECKING
